@@ -62,10 +62,69 @@ def simple_rule_grammar(rng):
     return g
 
 
+def twin_grammar(rng):
+    """rules whose names differ only by underscores (the action lookup tries name, name.strip('_'), _name, _name_), all of them
+    reached in one parse, with actions that tell them apart"""
+    base = rng.choice(['value', 'item', 'atom', 'Tok'])
+    variants = rng.sample([base, '_' + base, base + '_', '_' + base + '_', '__' + base], rng.randint(2, 3))
+    toks = rng.sample(['a', 'b', 'x', ',', '1'], len(variants))
+    rules = [(v, ['nomemo'] if rng.random() < 0.2 else [], ('choice', [('tok', t), ('pat', r'\d+')]) if rng.random() < 0.5 else ('tok', t))
+             for v, t in zip(variants, toks)]
+    order = [rng.choice(variants) for _ in range(rng.randint(2, 5))]
+    body = rng.choice([
+        ('seq', [('call', v) for v in order]),
+        ('rep', False, None, False, ('choice', [('call', v) for v in variants])),
+        ('seq', [('choice', [('call', v) for v in variants]), ('rep', False, None, False, ('choice', [('call', v) for v in reversed(variants)]))]),
+    ])
+    g = {'rules': [('start', [], body)] + rules, 'directives': {}, 'keywords': []}
+    lex = [rng.choice(toks + ['7']) for _ in range(rng.randint(1, 5))]
+    texts = [' '.join(lex)] + [' '.join(rng.choice(toks) for _ in range(rng.randint(1, 5))) for _ in range(3)]
+    # methods: for some variants only, so that the others fall back through the lookup order
+    methods = {}
+    for v in variants:
+        r = rng.random()
+        if r < 0.55:
+            methods[v] = 'tag'
+        elif r < 0.7:
+            methods[v] = ('const', rng.choice(['K', 7]))
+        elif r < 0.8:
+            methods[v] = 'identity'
+    if not methods:
+        methods[variants[0]] = 'tag'
+    spec = (rng.choice(['none', 'identity']), methods)
+    return g, texts, spec
+
+
+def atoms_grammar(rng):
+    """rules whose values are atoms that compare equal across types (1 == True, 0 == False), passed through the same action"""
+    pool = ['1', 'True', '0', 'False', 'None', "'1'", '42']
+    consts = [rng.choice(pool) for _ in range(rng.randint(2, 4))]
+    rules = [(f'c{i}', ['nomemo'] if rng.random() < 0.2 else [], ('seq', [('tok', t), ('over', False, ('const', c))]) if rng.random() < 0.6 else ('const', c))
+             for i, (c, t) in enumerate(zip(consts, ['a', 'b', 'x', ',']))]
+    n = len(rules)
+    body = ('seq', [rng.choice([('call', f'c{i}'), ('named', rng.random() < 0.3, rng.choice(['n', 'm']), ('call', f'c{i}'))])
+                    for i in [rng.randrange(n) for _ in range(rng.randint(2, 6))]])
+    g = {'rules': [('start', [], body)] + rules, 'directives': {}, 'keywords': []}
+    texts = [' '.join(G.sample_sentence(rng, g, body)) for _ in range(2)]
+    methods = {}
+    if rng.random() < 0.5:
+        for i in range(n):
+            if rng.random() < 0.5:
+                methods[f'c{i}'] = rng.choice(['identity', 'tag'])
+    spec = ('identity' if not methods or rng.random() < 0.7 else 'none', methods)
+    return g, texts, spec
+
+
 def shard(col, shard_i, ngrammars, ninputs):
     mr = ModelRun('Engine')
     rng = col.rng
     cases = []
+    for gi in range(ngrammars * 2):
+        fam, (g, texts, spec) = ('twins', twin_grammar(rng)) if gi % 2 == 0 else ('atoms', atoms_grammar(rng))
+        col.count('family.' + fam)
+        for t in texts:
+            cases.append(R.Case(g, t, None, E.Settings(), spec))
+            cases.append(R.Case(g, t, None, E.Settings(memoization=False), spec))
     for gi in range(ngrammars):
         g = simple_rule_grammar(rng)
         texts = [t[:40] for t in G.gen_inputs(rng, g, ninputs)]
@@ -136,8 +195,9 @@ def shard(col, shard_i, ngrammars, ninputs):
 def main():
     chk = Check(PID)
     chk.rule = ('random grammars extended with leaf rules (some @nomemo) whose values are plain strings x inputs x semantics objects drawn from '
-                '{no method, identity, tagging with the rule name, FailedSemantics on a predicate of the ast, raising one of 8 exception classes on a '
-                'predicate, constant, _default only / with methods}; compared: result and the sequence of action calls (implementation vs model), '
+                '{no method, identity, tagging with the name of the method found, FailedSemantics on a predicate of the ast, raising one of 8 exception classes on a '
+                'predicate, constant, _default only / with methods}; families: rules whose names differ only by underscores, all reached in one parse '
+                '(action lookup order), and rules yielding atoms equal across types (1/True, 0/False) through one action; compared: result and the sequence of action calls (implementation vs model), '
                 'identity vs no semantics, generated parser failure/exception class. Non-trivial: non-empty input with a semantics object.')
     chk.trusted += ['oracles per case from the real Python (re, unicode predicates, resolved ParserConfig, lrec flags); the semantics classes of '
                     'enginelib.make_semantics mirror Engine/Semantics.v (deterministic functions of (rule, ast))']
